@@ -41,6 +41,7 @@ type setCfg struct {
 	Ports    string   `json:"ports"`
 	MDNS     string   `json:"mdns"`
 	Mux      string   `json:"mux"`
+	Rewrite  string   `json:"rewrite"`
 }
 
 type setCase struct {
@@ -48,6 +49,7 @@ type setCase struct {
 	Cfg      setCfg      `json:"cfg"`
 	Table    []ifaceCase `json:"table"`
 	MuxAddrs []string    `json:"muxaddrs"`
+	Rw       []string    `json:"rw"` // host rewrite rule the specification asks for: local address, external address
 	PortMin  int         `json:"portmin"`
 	PortMax  int         `json:"portmax"`
 }
@@ -231,6 +233,10 @@ func runSetCase(t *testing.T, tc setCase) (res setResult) {
 		}
 		if cfg.Mux == "tcp" || cfg.Mux == "both" {
 			opts = append(opts, ice.WithTCPMux(&ftcpMux{fmux: fmux{w: w, kind: "tcpmux"}, port: 7000}))
+		}
+		if len(tc.Rw) == 2 {
+			opts = append(opts, ice.WithAddressRewriteRules(ice.AddressRewriteRule{Local: tc.Rw[0], External: []string{tc.Rw[1]},
+				AsCandidateType: ice.CandidateTypeHost, Mode: ice.AddressRewriteReplace}))
 		}
 		a, err := ice.NewAgentWithOptions(opts...)
 		if err != nil {
